@@ -31,6 +31,7 @@ RULE = ("seg.row tin ...: one line per incoming type (all 256), each line = 256 
         "sections outside the serialiser's well-formedness (sub-segment bytes after another type) or without a descriptor. "
         "A seg.dec.closem line is non-trivial when it contains an incoming type with rules.")
 EXHAUSTIVE = True
+EXHAUSTIVE_WHOLE = True   # the quantifier of C19 is the finite abstraction (type x type x conditions), enumerated completely
 EXHAUSTIVE_NOTE = ("256 x 256 types x 2 x 2 x 2 (x 3 sub-segment shapes) = 1 572 864 CanClose calls per value set, all 256 types "
                    "through IsIn/IsOut, and the complete single-field-difference grid of Equal are enumerated on every run; "
                    "the dependence on the field VALUES only through their equalities is the theorem C19_can_close_abstraction. "
